@@ -42,7 +42,22 @@ def program_cases(rng, n):
         d = rng.choice([lim - 1, lim, -lim, -lim - 1, 0, -1, 1, rng.randrange(-lim - 3, lim + 3)])
         pre = filler(rng, rng.randrange(0, 6))
         npre = sum(dict(FILL)[t] for t in pre)
-        form = rng.choice(["label", "pc", "pc-after-data", "number"])
+        form = rng.choice(["label", "pc", "pc-after-data", "number", "equ-pc", "set-alias"])
+        if form in ("equ-pc", "set-alias"):
+            # the target goes through an .equ alias whose value depends on WHERE (pc) or WHEN (a .set variable) it is read, and
+            # which has been read once before, elsewhere: every use evaluates the definition afresh
+            back = -d - 1
+            body = filler(rng, d if d >= 0 else back)
+            at = 1 + npre + (0 if d >= 0 else back)
+            if form == "equ-pc":
+                head = [".equ tgt = %s%+d" % (rng.choice(["pc", "PC"]), d + 1), "  .dw tgt"]
+                mid = []
+            else:
+                head = [".set base = 7", ".equ tgt = base + 1", "  .dw tgt"]
+                mid = [".set base = %d" % (at + 1 + d - 1)]
+            lines = head + (pre + mid + ["  %s tgt" % op] + body + ["  nop"] if d >= 0 else pre + body + mid + ["  %s tgt" % op])
+            cases.append(("\n".join(lines) + "\n", at, word_of(op, d)))
+            continue
         if form == "pc-after-data":
             pre.append(rng.choice(["  .dw 5", "  .db 1, 2", "  .dd 1"]))
             npre += 1 if "dd" not in pre[-1] else 2
@@ -117,5 +132,5 @@ def replay(path):
     import json
     i = json.load(open(path)).get("input") or {}
     if "source" in i:
-        return P.replay_text(PROP, path, lambda vh, exe, inp: None)
+        return P.replay_by_rerun(PROP, path)
     return encrun.replay(PROP, path)
